@@ -7,7 +7,13 @@ helper (`if let Some(s) = scalar_name(ty) { return Ok(s) }`), strings accumulate
 match, nested helpers — by partially evaluating the function's exits (value trees + guard frames of the inlined view) under
 the assumption "the parameter is variant V".  Conditions the assumption does not decide are kept (both outcomes), so the
 result is a set of alternative value trees; alternatives that end in `never` (unreachable!/panic!/return elsewhere) are
-dropped.  Nothing is executed: this is constant propagation of one fact over syntax trees."""
+dropped.  Nothing is executed: this is constant propagation of one fact over syntax trees.
+
+The assumption is a *spec* object: `EnumSpec(param, variant)` ("the parameter is variant V") or `KeySpec(is_key, name)`
+("this string — e.g. the last path segment's identifier in the type parser — equals `name`").  A KeySpec decides `match`es
+over the key with literal arms, `==`/`matches!` tests, and membership tests against constant tables the evaluator has
+resolved (`TABLE.contains(&key)`, `TABLE.iter().find(|(n, _)| *n == key)`, `TABLE.iter().any(..)`), so that a table-driven
+dispatch and a one-arm-per-literal dispatch are the same function to the rules.  Several specs can be combined."""
 import copy
 
 from . import vt
@@ -53,73 +59,305 @@ def _payload(v):
     return None
 
 
-def ev(v, param, variant, depth=0):
-    """Alternatives (list of value trees) of v under `param is variant`.  `never` alternatives are kept as {'k':'never'} so that
+def _lits(variants):
+    return [str(x)[4:].strip().strip('"') for x in variants if str(x).startswith('lit:')]
+
+
+def _const_items(v, d=0):
+    """Items of a constant list the evaluator resolved (const/static array, slice or vec literal), else None."""
+    while isinstance(v, dict) and d < 12:
+        d += 1
+        kk = v.get('k')
+        if kk == 'var':
+            v = v.get('v')
+        elif kk in ('ref', 'deref', 'paren'):
+            v = v.get('v')
+        elif kk == 'call' and v.get('recv') is not None and v.get('f') in ('iter', 'into_iter', 'as_slice', 'as_ref', 'to_vec', 'copied', 'cloned'):
+            v = v['recv']
+        elif kk in ('array', 'vecof', 'tuple') and isinstance(v.get('items'), list):
+            return [it.get('v') if isinstance(it, dict) and 'how' in it and 'v' in it else it for it in v['items']]
+        else:
+            return None
+    return None
+
+
+def _str_lit(v):
+    v = vt.unvar(v)
+    while isinstance(v, dict) and v.get('k') in ('ref', 'deref', 'paren'):
+        v = vt.unvar(v.get('v'))
+    if isinstance(v, dict) and v.get('k') == 'lit' and v.get('t') == 'str':
+        return v.get('v')
+    return None
+
+
+def _table_keys(items):
+    """String keys of a constant table: the items themselves, or the one tuple component that is a string literal everywhere."""
+    if not items:
+        return None
+    flat = [_str_lit(x) for x in items]
+    if all(x is not None for x in flat):
+        return flat
+    tuples = [vt.unvar(x) for x in items]
+    if all(isinstance(t, dict) and t.get('k') == 'tuple' and t.get('items') for t in tuples):
+        n = min(len(t['items']) for t in tuples)
+        cols = [i for i in range(n) if all(_str_lit(t['items'][i]) is not None for t in tuples)]
+        if len(cols) == 1:
+            return [_str_lit(t['items'][cols[0]]) for t in tuples]
+    return None
+
+
+class EnumSpec:
+    """`param` (a function parameter of enum type) is `variant`."""
+
+    def __init__(self, param, variant):
+        self.param, self.variant = param, variant
+
+    def is_scrut(self, v):
+        return _is_param(v, self.param)
+
+    def arm_hits(self, a):
+        """True: the arm's pattern takes the value; False: it does not."""
+        vs = _short(a.get('variants', []))
+        pat = str(a.get('pat', '')).strip()
+        return bool(self.variant in vs or '_' in vs or (not [x for x in vs if x] and pat.replace('_', 'a').isidentifier()) or (vs and all(not x[:1].isupper() for x in vs)))
+
+    def arm_frame(self, fr):
+        vs = _short(fr.get('variants', []))
+        named = [x for x in vs if x[:1].isupper()]
+        if self.variant in vs:
+            return True
+        if '_' in vs or not named:
+            return None    # catch-all: holds iff no earlier arm took the variant — decided by the caller through arm order
+        return False
+
+    def names_it(self, a):
+        return self.variant in _short(a.get('variants', []))
+
+    def test(self, c, specs):
+        if c.get('k') == 'iflet' and _is_param(c.get('scrut'), self.param):
+            return self.variant in _short(c.get('variants', []))
+        if c.get('k') == 'matches' and _is_param(c.get('scrut'), self.param) and not c.get('guard'):
+            return self.variant in _short(c.get('variants', []))
+        return None
+
+
+class KeySpec:
+    """The string recognised by `is_key(value)` equals `name`."""
+
+    def __init__(self, is_key, name, aliases=()):
+        self._is_key, self.name, self.aliases = is_key, name, tuple(aliases)
+
+    def is_key(self, v):
+        if self._is_key(v):
+            return True
+        v = vt.unvar(v) if not (isinstance(v, dict) and v.get('k') == 'var' and v.get('name') in self.aliases) else v
+        w = v
+        while isinstance(w, dict) and w.get('k') in ('ref', 'deref', 'paren'):
+            w = w.get('v')
+        return isinstance(w, dict) and ((w.get('k') == 'var' and w.get('name') in self.aliases) or (w.get('k') == 'atom' and w.get('root') in self.aliases and not w.get('path')))
+
+    def is_scrut(self, v):
+        return self.is_key(v)
+
+    def with_alias(self, name):
+        return KeySpec(self._is_key, self.name, self.aliases + (name,))
+
+    def arm_hits(self, a):
+        lits = _lits(a.get('variants', []))
+        if lits:
+            return self.name in lits
+        vs = _short(a.get('variants', []))
+        pat = str(a.get('pat', '')).strip()
+        return bool('_' in vs or pat.replace('_', 'a').isidentifier())
+
+    def arm_frame(self, fr):
+        lits = _lits(fr.get('variants', []))
+        if lits:
+            return self.name in lits
+        return None
+
+    def names_it(self, a):
+        return self.name in _lits(a.get('variants', []))
+
+    def _member(self, table_value):
+        keys = _table_keys(_const_items(table_value))
+        return None if keys is None else (self.name in keys)
+
+    def _closure_eq(self, clo):
+        """closure body `<x> == <key>`: the closure selects the table entry whose string equals the key."""
+        clo = vt.unvar(clo)
+        if not (isinstance(clo, dict) and clo.get('k') == 'closure'):
+            return False
+        b = vt.unvar(clo.get('body'))
+        while isinstance(b, dict) and b.get('k') in ('paren',):
+            b = vt.unvar(b.get('v'))
+        return isinstance(b, dict) and b.get('k') == 'op' and b.get('op') == '==' and len(b.get('args', [])) == 2 and (self.is_key(b['args'][0]) != self.is_key(b['args'][1]))
+
+    def project(self, v):
+        """`TABLE.iter().find(|(n, _)| *n == key)` → `Some(row)`: component i of the row selected by the key."""
+        if not (v.get('k') == 'field' and str(v.get('name', '')).isdigit()):
+            return None
+        b = vt.unvar(v.get('base'))
+        if not (isinstance(b, dict) and b.get('k') == 'payload' and str(b.get('variant', '')).split('::')[-1] == 'Some'):
+            return None
+        sc = vt.unvar(b.get('of'))
+        if not (isinstance(sc, dict) and sc.get('k') == 'call' and sc.get('f') == 'find' and sc.get('recv') is not None and len(sc.get('args', [])) == 1 and self._closure_eq(sc['args'][0])):
+            return None
+        items = _const_items(sc['recv'])
+        keys = _table_keys(items)
+        if keys is None or self.name not in keys:
+            return None
+        row = vt.unvar(items[keys.index(self.name)])
+        i = int(v['name'])
+        if isinstance(row, dict) and row.get('k') == 'tuple' and i < len(row.get('items', [])):
+            return row['items'][i]
+        return None
+
+    def test(self, c, specs):
+        kk = c.get('k')
+        if kk == 'op' and c.get('op') in ('==', '!=') and len(c.get('args', [])) == 2:
+            a, b = c['args']
+            for x, y in ((a, b), (b, a)):
+                if self.is_key(x) and _str_lit(y) is not None:
+                    return (_str_lit(y) == self.name) == (c['op'] == '==')
+            return None
+        if kk == 'matches' and self.is_key(c.get('scrut')) and not c.get('guard'):
+            lits = _lits(c.get('variants', []))
+            return (self.name in lits) if lits else None
+        if kk == 'call' and c.get('recv') is not None:
+            f = c.get('f')
+            if f == 'contains' and len(c.get('args', [])) == 1 and self.is_key(c['args'][0]):
+                return self._member(c['recv'])
+            if f == 'any' and len(c.get('args', [])) == 1 and self._closure_eq(c['args'][0]):
+                return self._member(c['recv'])
+            if f in ('is_some', 'is_none') and not c.get('args'):
+                inner = vt.unvar(c['recv'])
+                if isinstance(inner, dict) and inner.get('k') == 'call' and inner.get('f') in ('find', 'position') and inner.get('recv') is not None and len(inner.get('args', [])) == 1 and self._closure_eq(inner['args'][0]):
+                    m = self._member(inner['recv'])
+                    return None if m is None else (m == (f == 'is_some'))
+            return None
+        if kk == 'iflet':
+            sc = vt.unvar(c.get('scrut'))
+            if isinstance(sc, dict) and sc.get('k') == 'call' and sc.get('f') in ('find', 'position') and sc.get('recv') is not None and len(sc.get('args', [])) == 1 and self._closure_eq(sc['args'][0]):
+                m = self._member(sc['recv'])
+                vs = _short(c.get('variants', []))
+                if m is None or not vs:
+                    return None
+                return m if 'Some' in vs else (not m if 'None' in vs else None)
+        return None
+
+
+def cond_truth(c, specs, depth=0):
+    """True / False / None for a boolean condition (or `if let` test) under the specs; three-valued `!`, `&&`, `||`."""
+    c = vt.unvar(c)
+    while isinstance(c, dict) and c.get('k') == 'paren':
+        c = vt.unvar(c.get('v'))
+    if not isinstance(c, dict) or depth > 12:
+        return None
+    if c.get('k') == 'lit' and c.get('t') == 'bool':
+        return bool(c.get('v')) if not isinstance(c.get('v'), str) else c.get('v') == 'true'
+    if c.get('k') == 'op' and c.get('op') == '!' and len(c.get('args', [])) == 1:
+        t = cond_truth(c['args'][0], specs, depth + 1)
+        return None if t is None else (not t)
+    if c.get('k') == 'op' and c.get('op') in ('&&', '||') and len(c.get('args', [])) == 2:
+        a, b = (cond_truth(x, specs, depth + 1) for x in c['args'])
+        if c['op'] == '&&':
+            return False if (a is False or b is False) else (True if (a is True and b is True) else None)
+        return True if (a is True or b is True) else (False if (a is False and b is False) else None)
+    for sp in specs:
+        t = sp.test(c, specs)
+        if t is not None:
+            return t
+    return None
+
+
+def _take_arms(arms, sp, specs):
+    """The arms of a match over the spec's scrutinee that can be taken, in order (several when an arm guard is undecided)."""
+    taken = []
+    for a in arms:
+        if not sp.arm_hits(a):
+            continue
+        g = a.get('guard')
+        if g is None:
+            taken.append(a)
+            break
+        specs2 = specs
+        pat = str(a.get('pat', '')).strip()
+        if isinstance(sp, KeySpec) and pat.replace('_', 'a').isidentifier():
+            specs2 = [x.with_alias(pat) if x is sp else x for x in specs]
+        t = cond_truth(g, specs2)
+        if t is False:
+            continue
+        taken.append(a)
+        if t is True:
+            break
+    return taken
+
+
+def evs(v, specs, depth=0):
+    """Alternatives (list of value trees) of v under the specs.  `never` alternatives are kept as {'k':'never'} so that
     callers can prune whole exits."""
     if depth > MAXD or not isinstance(v, dict):
         return [v]
     kk = v.get('k')
     if kk == 'var':
-        return ev(v.get('v'), param, variant, depth + 1)
+        # keep the name of the local: rules tell "the same local used twice" from "two draws" by it
+        return [dict(v, v=x) if isinstance(x, dict) and x.get('k') != 'never' and v.get('name') else x for x in evs(v.get('v'), specs, depth + 1)]
     if kk in ('paren',):
-        return ev(v.get('v'), param, variant, depth + 1)
+        return evs(v.get('v'), specs, depth + 1)
     if kk == 'never':
         return [v]
     if kk == 'match':
-        if _is_param(v.get('scrut'), param):
-            for a in v.get('arms', []):
-                vs = _short(a.get('variants', []))
-                pat = str(a.get('pat', '')).strip()
-                if variant in vs or '_' in vs or (not [x for x in vs if x] and pat.replace('_', 'a').isidentifier()) or (vs and all(not x[:1].isupper() for x in vs)):
-                    return ev(a.get('v'), param, variant, depth + 1)
-            return [{'k': 'never'}]
+        for sp in specs:
+            if sp.is_scrut(v.get('scrut')):
+                outs = []
+                for a in _take_arms(v.get('arms', []), sp, specs):
+                    outs += evs(a.get('v'), specs, depth + 1)
+                return outs[:24] or [{'k': 'never'}]
         # match on an evaluated Option/Result
         outs = []
-        for sc in ev(v.get('scrut'), param, variant, depth + 1):
+        for sc in evs(v.get('scrut'), specs, depth + 1):
             sh = _shape(sc)
             hit = False
             if sh is not None:
                 for a in v.get('arms', []):
                     vs = _short(a.get('variants', []))
-                    if sh in vs or '_' in vs:
-                        outs += ev(_bind_payload(a.get('v'), sc), param, variant, depth + 1)
+                    if (sh in vs or '_' in vs) and a.get('guard') is None:
+                        outs += evs(_bind_payload(a.get('v'), sc), specs, depth + 1)
                         hit = True
                         break
             if not hit:
                 for a in v.get('arms', []):
-                    outs += ev(a.get('v'), param, variant, depth + 1)
+                    outs += evs(a.get('v'), specs, depth + 1)
         return outs[:24] or [{'k': 'never'}]
     if kk == 'cond':
         c = vt.unvar(v.get('c'))
+        t = cond_truth(c, specs)
+        if t is not None:
+            return evs(v['t'] if t else v.get('e'), specs, depth + 1)
         if isinstance(c, dict) and c.get('k') == 'iflet':
-            if _is_param(c.get('scrut'), param):
-                hit = variant in _short(c.get('variants', []))
-                return ev(v['t'] if hit else v.get('e'), param, variant, depth + 1)
             outs = []
-            for sc in ev(c.get('scrut'), param, variant, depth + 1):
+            for sc in evs(c.get('scrut'), specs, depth + 1):
                 sh = _shape(sc)
                 if sh is None:
-                    outs += ev(v.get('t'), param, variant, depth + 1) + ev(v.get('e'), param, variant, depth + 1)
+                    outs += evs(v.get('t'), specs, depth + 1) + evs(v.get('e'), specs, depth + 1)
                 elif sh in _short(c.get('variants', [])):
-                    outs += ev(v.get('t'), param, variant, depth + 1)
+                    outs += evs(v.get('t'), specs, depth + 1)
                 else:
-                    outs += ev(v.get('e'), param, variant, depth + 1)
+                    outs += evs(v.get('e'), specs, depth + 1)
             return outs[:24]
-        if isinstance(c, dict) and c.get('k') == 'matches' and _is_param(c.get('scrut'), param) and not c.get('guard'):
-            hit = variant in _short(c.get('variants', []))
-            return ev(v['t'] if hit else v.get('e'), param, variant, depth + 1)
         # undecided condition: specialise both branches but keep the conditional (rules tabulate it themselves)
-        ts, es = ev(v.get('t'), param, variant, depth + 1), ev(v.get('e'), param, variant, depth + 1)
-        return [dict(v, t=t, e=e) for t in ts[:4] for e in es[:4]][:16]
+        ts, es = evs(v.get('t'), specs, depth + 1), evs(v.get('e'), specs, depth + 1)
+        return [dict(v, t=t_, e=e_) for t_ in ts[:4] for e_ in es[:4]][:16]
     if kk == 'alt':
         outs = []
         guards_ = v.get('alt_guards') or [[] for _ in v.get('alts', [])]
         for a, frames in zip(v.get('alts', []), guards_):
             # alternatives of a function result: early returns (with the frames they sit under) in source order, then the tail
-            ts = [frame_truth(fr, param, variant) for fr in frames if fr.get('k') in ('if', 'arm')]
+            ts = [frames_truth(fr, specs) for fr in frames if fr.get('k') in ('if', 'arm')]
             if any(t is False for t in ts):
                 continue
-            outs += ev(a, param, variant, depth + 1)
+            outs += evs(a, specs, depth + 1)
             if frames and ts and all(t is True for t in ts):
                 break       # this early return is taken for sure: what follows it is not reached
         return outs[:24] or [{'k': 'never'}]
@@ -129,24 +367,40 @@ def ev(v, param, variant, depth=0):
             if 'lit' in p:
                 alts = [a + [p] for a in alts]
             else:
-                subs = ev(p.get('hole'), param, variant, depth + 1)
+                subs = evs(p.get('hole'), specs, depth + 1)
                 if any(isinstance(s, dict) and s.get('k') == 'never' for s in subs) and len(subs) == 1:
                     return [{'k': 'never'}]
                 subs = [s for s in subs if not (isinstance(s, dict) and s.get('k') == 'never')] or subs
                 alts = [a + [dict(p, hole=s)] for a in alts for s in subs[:6]][:24]
         return [dict(v, parts=a) for a in alts]
     if kk in ('try', 'some'):
-        return [dict(v, v=x) if not (isinstance(x, dict) and x.get('k') == 'never') else x for x in ev(v.get('v'), param, variant, depth + 1)]
+        return [dict(v, v=x) if not (isinstance(x, dict) and x.get('k') == 'never') else x for x in evs(v.get('v'), specs, depth + 1)]
     if kk == 'call':
         outs = [v]
         if v.get('recv') is None and str(v.get('f')) in ('Some', 'Ok', 'Err') and len(v.get('args', [])) == 1:
-            return [dict(v, args=[x]) if not (isinstance(x, dict) and x.get('k') == 'never') else x for x in ev(v['args'][0], param, variant, depth + 1)]
+            return [dict(v, args=[x]) if not (isinstance(x, dict) and x.get('k') == 'never') else x for x in evs(v['args'][0], specs, depth + 1)]
         if v.get('recv') is not None and v.get('f') in vt.TRANSPARENT_CALLS | {'to_owned', 'to_string', 'into', 'as_str', 'clone', 'as_deref', 'as_ref'}:
-            return [dict(v, recv=x) if not (isinstance(x, dict) and x.get('k') == 'never') else x for x in ev(v['recv'], param, variant, depth + 1)]
+            return [dict(v, recv=x) if not (isinstance(x, dict) and x.get('k') == 'never') else x for x in evs(v['recv'], specs, depth + 1)]
+        if v.get('recv') is None and str(v.get('f', '')).replace(' ', '').split('::')[-1][:1].isupper() and v.get('args'):
+            # a tuple-variant / tuple-struct constructor: its value is the constructor applied to the specialised arguments
+            combos = [[]]
+            for a in v['args']:
+                subs = [x for x in evs(a, specs, depth + 1)]
+                if subs and all(isinstance(x, dict) and x.get('k') == 'never' for x in subs):
+                    return [{'k': 'never'}]
+                subs = [x for x in subs if not (isinstance(x, dict) and x.get('k') == 'never')] or subs
+                combos = [c + [x] for c in combos for x in subs[:4]][:12]
+            return [dict(v, args=c) for c in combos]
         return outs
+    if kk == 'field':
+        for sp in specs:
+            r = sp.project(v) if hasattr(sp, 'project') else None
+            if r is not None:
+                return evs(r, specs, depth + 1)
+        return [v]
     if kk == 'payload':
         outs = []
-        for o in ev(v.get('of'), param, variant, depth + 1):
+        for o in evs(v.get('of'), specs, depth + 1):
             sh = _shape(o)
             if sh is not None and sh != v.get('variant'):
                 outs.append({'k': 'never'})      # `Some` payload of a value that is `None` on this path: path impossible
@@ -158,81 +412,87 @@ def ev(v, param, variant, depth=0):
     return [v]
 
 
+def ev(v, param, variant, depth=0):
+    return evs(v, [EnumSpec(param, variant)], depth)
+
+
 def _bind_payload(v, scrutinee_value):
     return v
 
 
-def frame_truth(fr, param, variant):
-    """True / False / None: does this guard frame hold under `param is variant`?"""
+def frames_truth(fr, specs):
+    """True / False / None: does this guard frame hold under the specs?"""
     k = fr.get('k')
     if k == 'arm':
-        if _is_param(fr.get('scrut'), param):
-            vs = _short(fr.get('variants', []))
-            named = [x for x in vs if x[:1].isupper()]
-            if variant in vs:
-                return True
-            if '_' in vs or not named:
-                return None    # catch-all: holds iff no earlier arm took the variant — decided by the caller through arm order
-            return False
+        for sp in specs:
+            if sp.is_scrut(fr.get('scrut')):
+                t = sp.arm_frame(fr)
+                if t is True and fr.get('guard') is not None:
+                    g = cond_truth(fr['guard'], specs)
+                    return True if g is True else (False if g is False else None)
+                return t
         return None
     if k == 'if':
         c = vt.unvar(fr.get('c'))
         neg = bool(fr.get('neg'))
-        t = None
-        if isinstance(c, dict) and c.get('k') == 'iflet':
-            if _is_param(c.get('scrut'), param):
-                t = variant in _short(c.get('variants', []))
-            else:
-                shapes = {_shape(x) for x in ev(c.get('scrut'), param, variant) if not (isinstance(x, dict) and x.get('k') == 'never')}
-                if shapes and None not in shapes:
-                    hits = {s in _short(c.get('variants', [])) for s in shapes}
-                    if len(hits) == 1:
-                        t = hits.pop()
-        elif isinstance(c, dict) and c.get('k') == 'matches' and _is_param(c.get('scrut'), param) and not c.get('guard'):
-            t = variant in _short(c.get('variants', []))
+        t = cond_truth(c, specs)
+        if t is None and isinstance(c, dict) and c.get('k') == 'iflet' and not any(sp.is_scrut(c.get('scrut')) for sp in specs):
+            shapes = {_shape(x) for x in evs(c.get('scrut'), specs) if not (isinstance(x, dict) and x.get('k') == 'never')}
+            if shapes and None not in shapes:
+                hits = {s in _short(c.get('variants', [])) for s in shapes}
+                if len(hits) == 1:
+                    t = hits.pop()
         if t is None:
             return None
         return t != neg
     return None
 
 
+def frame_truth(fr, param, variant):
+    return frames_truth(fr, [EnumSpec(param, variant)])
+
+
+def outcomes(G, specs):
+    """Value trees the (inlined view of a) function can return under the specs: exits whose guard frames are false under the
+    assumption are dropped, `never` results too."""
+    exits = [(r.get('guard', []), r.get('v')) for r in G.get('returns', []) if r.get('v') is not None]
+    if G.get('tail') is not None:
+        exits.append(([], G['tail']))
+    vals = []
+    for frames, val in exits:
+        # arm frames with a catch-all pattern hold only if no sibling arm names the value: approximate by checking the
+        # explicit arms of the same match (recorded in the function's `matches`)
+        verdicts = []
+        for fr in frames:
+            t = frames_truth(fr, specs)
+            if t is None and fr.get('k') == 'arm':
+                sp = next((x for x in specs if x.is_scrut(fr.get('scrut'))), None)
+                if sp is not None and fr.get('guard') is None:
+                    named_elsewhere = any(sp.names_it(a) and a.get('guard') is None for m in G.get('matches', []) if vt.ckey(m.get('scrut')) == vt.ckey(fr.get('scrut')) and any(a2.get('line') == fr.get('line') for a2 in m.get('arms', [])) for a in m.get('arms', []))
+                    t = not named_elsewhere
+            verdicts.append(t)
+        if any(t is False for t in verdicts):
+            continue
+        for x in evs(copy.deepcopy(val), specs):
+            if isinstance(x, dict) and x.get('k') == 'never':
+                continue
+            if _contains_never(x):
+                continue
+            vals.append(x)
+    return vals
+
+
 def per_variant(ctx, f, enum_name, param=None):
     """{variant name: [value trees]} for every variant of `enum_name`: what `f` (inlined view) returns when its parameter of
-    that enum type is the variant.  Exits whose guard frames are false under the assumption are dropped, `never` results too."""
+    that enum type is the variant."""
     G = ctx.x(f)
     if param is None:
         cands = [p['name'] for p in f['params'] if enum_name in str(p.get('ty') or '')]
         if not cands:
             return {}
         param = cands[0]
-    exits = [(r.get('guard', []), r.get('v')) for r in G.get('returns', []) if r.get('v') is not None]
-    if G.get('tail') is not None:
-        exits.append(([], G['tail']))
     enum = ctx.item('enum', enum_name)
-    out = {}
-    for var in enum['variants']:
-        V = var['name']
-        vals = []
-        for frames, val in exits:
-            # arm frames with a catch-all pattern hold only if no sibling arm names the variant: approximate by checking the
-            # explicit arms of the same match (recorded in f['matches'])
-            verdicts = []
-            for fr in frames:
-                t = frame_truth(fr, param, V)
-                if t is None and fr.get('k') == 'arm' and _is_param(fr.get('scrut'), param):
-                    named_elsewhere = any(V in _short(a.get('variants', [])) for m in G.get('matches', []) if vt.ckey(m.get('scrut')) == vt.ckey(fr.get('scrut')) and any(a2.get('line') == fr.get('line') for a2 in m.get('arms', [])) for a in m.get('arms', []))
-                    t = not named_elsewhere
-                verdicts.append(t)
-            if any(t is False for t in verdicts):
-                continue
-            for x in ev(copy.deepcopy(val), param, V):
-                if isinstance(x, dict) and x.get('k') == 'never':
-                    continue
-                if _contains_never(x):
-                    continue
-                vals.append(x)
-        out[V] = vals
-    return out
+    return {var['name']: outcomes(G, [EnumSpec(param, var['name'])]) for var in enum['variants']}
 
 
 def _contains_never(v, d=0):
